@@ -3,6 +3,7 @@ package chansim
 import (
 	"context"
 	"fmt"
+	"runtime"
 	"sort"
 	"strings"
 	"sync"
@@ -100,17 +101,18 @@ type engine struct {
 	ops []*opRec
 	fin []*opRec
 
-	snaps      []map[ch.NodeID]*snap // snaps[i] = observation i
-	nextMsgID  uint64
-	barrierIDs map[uint64]bool
-	started    int
-	inflight   int
-	reads      int
-	readsMsgs  int
-	adopted    bool
-	leaderChg  bool
-	readers    map[ch.NodeID]*infracluster.ChannelMessageReader
-	mgmt       map[ch.NodeID]mgmtNode
+	snaps        []map[ch.NodeID]*snap // snaps[i] = observation i
+	nextMsgID    uint64
+	barrierIDs   map[uint64]bool
+	started      int
+	inflight     int
+	reads        int
+	readsMsgs    int
+	adopted      bool
+	leaderChg    bool
+	readers      map[ch.NodeID]*infracluster.ChannelMessageReader
+	mgmt         map[ch.NodeID]mgmtNode
+	c06Logged    bool
 	deferred     *pendingViolation // client-path read violation with a known root cause
 	deferredMgmt *pendingViolation // management-path read violation
 }
@@ -143,6 +145,14 @@ func runChanSim(t *testing.T, r *simkit.Run) {
 	c := drawCfg(r)
 	r.Config = map[string]any{"nofaults": c.noFaults, "msgdb": c.msgdb, "minisr": c.minISR, "ops": c.ops, "drop": c.fDrop, "isolate": c.fIsolate,
 		"regress": c.fRegress, "beyond": c.fBeyond, "mgmt_reads": c.mgmtReads, "trim_limit": c.trimLimit}
+	// The world contains ~100 goroutines of real code that hand work to one
+	// another inside one scheduler step; with several Ps two of them can
+	// occasionally race for a reactor mailbox slot in either order (seen once in
+	// ~30 replays at GOMAXPROCS 4/16). One P makes the hand-offs run in run-queue
+	// order, so the run is a function of the tape alone.
+	if prev := runtime.GOMAXPROCS(1); prev != 1 {
+		defer runtime.GOMAXPROCS(prev)
+	}
 	simkit.Bubble(t, r, func() {
 		e := &engine{t: t, r: r, c: c, barrierIDs: map[uint64]bool{}, nextMsgID: 5000}
 		e.run()
@@ -330,6 +340,10 @@ func (e *engine) observe() {
 		}
 		if s.rv.CheckpointHW > s.rv.HW {
 			r.Probe("c06_observed.checkpoint_above_hw")
+			if !e.c06Logged {
+				e.c06Logged = true
+				r.Logf("  C06-OBSERVED (not a C10 violation): node %d runtime reports CheckpointHW=%d > HW=%d (role=%d leader=%d LEO=%d)", id, s.rv.CheckpointHW, s.rv.HW, s.rv.Role, s.rv.Leader, s.rv.LEO)
+			}
 		}
 		if s.rv.HW > s.rv.LEO {
 			r.Probe("c06_observed.hw_above_leo")
